@@ -4,8 +4,9 @@
 # (VERIF_REPO), so that checks running against /repo at the same time are not disturbed.  SEED_IN_REPO=1 applies it to
 # /repo itself (git -C /repo apply; ...; git -C /repo checkout -- .) - only when nothing else is running.
 P=$1; shift
+IDS="$@"
 cd /verif
-rm -rf /verif/build/evidence.bak; cp -r /verif/evidence /verif/build/evidence.bak
+B=/verif/build/evidence.bak.$$; rm -rf $B; cp -r /verif/evidence $B
 if [ "${SEED_IN_REPO:-0}" = 1 ]; then
   R=/repo
 else
@@ -21,5 +22,6 @@ for id in "$@"; do
   echo "rc=${PIPESTATUS[0]}"
 done
 git -C $R checkout -- .
-cp /verif/build/evidence.bak/*.json /verif/evidence/ 2>/dev/null
+for id in $IDS; do cp $B/$id.json /verif/evidence/ 2>/dev/null; done   # only what this run overwrote
+rm -rf $B
 git -C $R status --short | grep -v _build
